@@ -83,7 +83,11 @@ func genFmtBody(t *rapid.T) FmtCase {
 		case 0, 1, 2:
 			stmts = append(stmts, gen.Stmt{Kind: "comment", Text: gen.CommentText(t, "comment")})
 		case 3, 4:
-			stmts = append(stmts, gen.Stmt{Kind: "assign", Name: gen.Ident(t, "var"), ValKind: "string", ValText: gen.StringText(t, "val")})
+			val := gen.StringText(t, "val")
+			if rapid.IntRange(0, 5).Draw(t, "cr_in_string") == 0 {
+				val = "a\rb" + val // a carriage return that is content, not a line end
+			}
+			stmts = append(stmts, gen.Stmt{Kind: "assign", Name: gen.Ident(t, "var"), ValKind: "string", ValText: val})
 		case 5:
 			stmts = append(stmts, gen.Stmt{Kind: "assign", Name: gen.Ident(t, "var"), ValKind: "func", ValText: "join", Args: []gen.Arg{{Str: true, Text: "a"}, {Str: true, Text: gen.StringText(t, "seg")}}})
 		default:
